@@ -14,7 +14,7 @@ for l in sys.stdin:
     except: continue
     if e.get('Action') in ('pass','fail') and e.get('Test'): res[e['Package']+'::'+e['Test']]=e['Action']
 print(json.dumps(res))"; }
-run_demo() { cp "$sd/demo_test.go" "$demo_dir/zz_seed_demo_test.go"; (cd "$demo_dir" && go test -vet=off -count=1 -timeout 10m -run 'Demo|Seed' . >/tmp/demo_$$.log 2>&1); rc=$?; rm -f "$demo_dir/zz_seed_demo_test.go"; return $rc; }
+run_demo() { cp "$sd/demo_test.go" "$demo_dir/zz_seed_demo_test.go"; pat=$(grep -ohE '^func (Test[A-Za-z0-9_]+)' "$sd/demo_test.go" | sed 's/func //' | paste -sd'|'); (cd "$demo_dir" && go test -vet=off -count=1 -timeout 15m -run "^($pat)\$" . >/tmp/demo_$$.log 2>&1); rc=$?; rm -f "$demo_dir/zz_seed_demo_test.go"; return $rc; }
 base=$(run_tests)
 run_demo; demo_clean=$?
 git apply "$sd/patch.diff" || { echo '{"ok":false,"why":"patch does not apply"}' > "$sd/confirm.json"; exit 1; }
